@@ -1,4 +1,4 @@
-SPECIFICATION GSpec
+SPECIFICATION FGSpec
 CONSTANTS
   Members = {"p", "q"}
   Vals = {1, 2, 3, 4}
@@ -6,18 +6,18 @@ CONSTANTS
   HwModes = {"clip", "refuse"}
   Excs = {"badvalue", "hardware", "other"}
   FM = "q"
-  FDepth = 3
-  Depth = 5
-  Depth2 = 4
+  FDepth = 4
+  Depth = 7
+  Depth2 = 5
   Layouts = {"combined", "separate"}
   WM = {"q"}
   WV = {4}
   AM = {"p"}
   AV = {1}
-  RM = {}
+  RM = {"q"}
   SWV = {2}
-  SAV = {1}
-  RS = TRUE
-CONSTRAINT Bound
-INVARIANT Emit1
+  SAV = {}
+  RS = FALSE
+CONSTRAINT FBound
+INVARIANT FEmit
 CHECK_DEADLOCK FALSE
